@@ -406,6 +406,20 @@ func RunC09(r *core.Run) {
 				return
 			}
 		}
+		// the first and the last contact stay retrievable whatever the array holds
+		if nc := len(contacts); nc > 0 {
+			for _, gi := range []int{0, nc - 1} {
+				g := c.GetContact(gi)
+				if g == nil {
+					fail("message-contact-first-last", fmt.Sprintf("GetContact(%d) is nil (N=%d, capacity %d)", gi, nc, cc), "")
+					return
+				}
+				if what, fnd := cmpNA(g, &contacts[gi], buf, sipsp.HdrContact); what != "" {
+					fail("message-contact-first-last", fmt.Sprintf("GetContact(%d) (N=%d, capacity %d): %s", gi, nc, cc, what), fnd)
+					return
+				}
+			}
+		}
 		pp := &pv.PAIs
 		if pp.N != len(pais) || pp.HNo != phno {
 			fail("message-pais-summary", fmt.Sprintf("PAIs: N=%d HNo=%d; written: %d values in %d headers", pp.N, pp.HNo, len(pais), phno), "")
